@@ -76,7 +76,9 @@ LLog(act, args) ==
     Emit([from |-> LSt, act |-> act, args |-> args,
           to |-> [recs |-> LView(bag'), nloads |-> nloads', last |-> last'], kids |-> Kids(bag')])
 
-LInit == bag = <<>> /\ last = <<>> /\ nloads = 0
+(* the file and the filter of a behaviour are fixed in its initial state (so   *)
+(* that TLC explores the files in parallel); `last` holds them                *)
+LInit == bag = <<>> /\ nloads = 0 /\ last \in {<<f, filt>> : f \in Files, filt \in Filters}
 
 (* a database that already holds a user-added record *)
 AddUser ==
@@ -84,23 +86,15 @@ AddUser ==
     /\ bag' = <<UserRecord>> /\ UNCHANGED <<last, nloads>>
     /\ LLog("AddUser", <<UserRecord>>)
 
-(* db = load_annotations(path=<file>, seqids=filt, db=db, lines_per_block=blk) *)
+(* db = load_annotations(path=<file>, seqids=filt, db=db, lines_per_block=blk); *)
+(* the second time: the same file, same filter, into the same database          *)
 LoadT(f, filt) == bag' = bag \o Features(Kept(f, filt))
-Load(f, filt, blk) ==
-    /\ nloads = 0
-    /\ LoadT(f, filt) /\ last' = <<f, filt>> /\ nloads' = 1
-    /\ LLog("Load", <<f, filt, blk>>)
-
-(* the same file, same filter, loaded a second time into the same database *)
-LoadAgain(blk) ==
-    /\ nloads = 1
-    /\ LoadT(last[1], last[2]) /\ nloads' = 2 /\ UNCHANGED last
+Load(blk) ==
+    /\ nloads < 2
+    /\ LoadT(last[1], last[2]) /\ nloads' = nloads + 1 /\ UNCHANGED last
     /\ LLog("Load", <<last[1], last[2], blk>>)
 
-LNext ==
-    \/ AddUser
-    \/ \E f \in Files, filt \in Filters, blk \in Blocks : Load(f, filt, blk)
-    \/ \E blk \in Blocks : LoadAgain(blk)
+LNext == AddUser \/ \E blk \in Blocks : Load(blk)
 
 LSpec == LInit /\ [][LNext]_lvars
 
@@ -111,7 +105,8 @@ NLines(fs) == LET RECURSIVE Sum(_)
               IN Sum(Len(fs))
 (* (the laws speak about all files, not about the state: they are evaluated    *)
 (* once, in the initial state)                                                 *)
-AtStart == bag = <<>> /\ nloads = 0
+FirstLine == CHOOSE ln \in Lines : TRUE
+AtStart == bag = <<>> /\ nloads = 0 /\ last = << <<FirstLine>>, {} >>
 (* every line is located in exactly one feature *)
 EveryLineOnce == AtStart => \A f \in Files : NLines(Features(f)) = Len(f)
 (* filtering by all sequences, or by none, keeps the file *)
@@ -124,7 +119,7 @@ FilterCommutes ==
 IdsAreUnique ==
     AtStart => \A f \in Files : \A i, j \in DOMAIN Features(f) :
         (i # j /\ Features(f)[i].name # "unknown") => Features(f)[i].name # Features(f)[j].name
-LTypeOK == nloads \in 0..2 /\ (nloads = 0 <=> last = <<>>)
+LTypeOK == nloads \in 0..2 /\ Len(last[1]) \in 1..FileLen /\ last[2] \in Filters
 (* a load never touches what was there *)
 LoadsAppend == [][Len(bag') >= Len(bag) /\ SubSeq(bag', 1, Len(bag)) = bag]_lvars
 =============================================================================
